@@ -42,7 +42,8 @@ theorem layout_unique (w : Nat) (hw : 0 < w) (bs : List Bits) (t d : Bits)
 /-- For a canonical codec the layout reads literally: `data = (items a).flatMap enc ++ trailing a`. -/
 theorem data_layout_enc (c : Codec V) (hw : 0 < c.w) (hcanon : c.Canonical) (d : Bits) :
     ∃ bs, (items c d).mapM c.enc = .ok bs ∧ d = bs.flatten ++ trailing c.w d := by
-  sorry
+  refine ⟨chunks c.w d, ?_, layout c.w d⟩
+  exact mapM_enc_dec c hcanon _ (chunks_mem_length c.w hw d)
 
 /-- Construction from an iterable: the data is the encodings back to back, then `trailing_bits`; the items are the
     values given (for any codec, canonical or not). -/
@@ -50,12 +51,62 @@ theorem init_list_layout (c : Codec V) (hu : c.mult = 1) (hL : 0 < c.L) (hwf : c
     (vals : List V) (t : Option Bits) (d : Bits) (h : init c (.list vals) t = .ok d) :
     ∃ bs, vals.mapM c.enc = .ok bs ∧ d = bs.flatten ++ t.getD [] ∧
       ((t.getD []).length < c.w → items c d = vals ∧ trailing c.w d = t.getD []) := by
-  sorry
+  unfold init at h
+  simp only at h
+  have h0 : ([] : Bits).length % c.L = 0 := by simp
+  cases hall : vals.all (fits c) with
+  | false =>
+    obtain ⟨e, he⟩ := extendLoop_err c hu hwf vals [] hall
+    have : (extendIter c [] vals).res = .error e := by
+      unfold extendIter; rw [if_neg (not_not.mpr h0)]; exact he
+    rw [this] at h
+    cases t <;> simp at h
+  | true =>
+    obtain ⟨bl, hf, hbl, hdec, hm, _⟩ := encs_of_fits c hu hwf vals hall
+    have hs : extendIter c [] vals = ⟨bl.flatten, .ok ()⟩ := by
+      unfold extendIter; rw [if_neg (not_not.mpr h0), extendLoop_blocks c hu hwf vals bl hf]; simp
+    rw [hs] at h
+    refine ⟨bl, hm, ?_, ?_⟩
+    · cases t with
+      | none => simp at h; simp [← h]
+      | some t => simp at h; simp [← h]
+    · intro ht
+      have hd : d = bl.flatten ++ t.getD [] := by
+        cases t with
+        | none => simp at h; simp [← h]
+        | some t => simp at h; simp [← h]
+      rw [hd]
+      have hv' := view_of_blocks c hu hL bl (t.getD []) hbl (by rw [← w_eq_L c hu]; exact ht)
+      exact ⟨by rw [hv'.1, hdec], hv'.2.1⟩
 
 /-- Construction fails iff some value does not fit. -/
 theorem init_list_error_iff (c : Codec V) (hu : c.mult = 1) (hwf : c.WF) (vals : List V) (t : Option Bits) :
     (∃ e, init c (.list vals) t = .error e) ↔ ∃ v ∈ vals, fits c v = false := by
-  sorry
+  have h0 : ([] : Bits).length % c.L = 0 := by simp
+  constructor
+  · rintro ⟨e, he⟩
+    by_contra hne
+    have hall : vals.all (fits c) = true := by
+      rw [List.all_eq_true]
+      intro v hv
+      by_contra hv'
+      exact hne ⟨v, hv, by simpa using hv'⟩
+    obtain ⟨bl, hf, _, _, _, _⟩ := encs_of_fits c hu hwf vals hall
+    have hs : extendIter c [] vals = ⟨bl.flatten, .ok ()⟩ := by
+      unfold extendIter; rw [if_neg (not_not.mpr h0), extendLoop_blocks c hu hwf vals bl hf]; simp
+    unfold init at he
+    simp only [hs] at he
+    cases t <;> simp at he
+  · rintro ⟨v, hv, hfv⟩
+    have hall : vals.all (fits c) = false := by
+      rw [List.all_eq_false]
+      exact ⟨v, hv, by simp [hfv]⟩
+    obtain ⟨e, he⟩ := extendLoop_err c hu hwf vals [] hall
+    have : (extendIter c [] vals).res = .error e := by
+      unfold extendIter; rw [if_neg (not_not.mpr h0)]; exact he
+    unfold init
+    simp only [this]
+    cases t <;> exact ⟨e, rfl⟩
 
 /-- The code's `trailing_bits` (`len % bitlength`, `data[-n:]`) is the SPEC trailing. -/
 theorem trailingBits_eq (c : Codec V) (hw : 0 < c.w) (d : Bits) : trailingBits c d = trailing c.w d := by
@@ -223,50 +274,165 @@ theorem setItem_rejects (c : Codec V) (d : Bits) (i : Int) (v : V) (hv : fits c 
 
 theorem delItem_refines (c : Codec V) (hu : c.mult = 1) (hL : 0 < c.L) (d : Bits) (i : Int) :
     (delItem c d i).view c = (PyL.delIndex (items c d) i).map fun l => ((), l) := by
-  sorry
+  obtain ⟨bs, t, hbs, ht, rfl, hch, htr, hlen, hit⟩ := blocks_view c hu hL d
+  rw [hit]
+  cases hn : normIndex bs.length i with
+  | error e =>
+    obtain ⟨rfl, hr⟩ := normIndex_err _ _ _ hn
+    have hs : delItem c (bs.flatten ++ t) i = ⟨bs.flatten ++ t, .error .index⟩ := by
+      unfold delItem; rw [hlen, hn]
+    rw [hs]
+    unfold PyL.delIndex Step.view
+    simp only [List.length_map]
+    generalize (if i < 0 then i + (bs.length : Int) else i) = j at hr ⊢
+    have : j < 0 ∨ (bs.length : Int) ≤ j := by omega
+    simp [this, Except.map]
+  | ok k =>
+    obtain ⟨hk, hkj⟩ := normIndex_ok _ _ _ hn
+    rw [delItem_blocks c hu hL bs t hbs ht i k hn]
+    unfold PyL.delIndex Step.view
+    simp only [List.length_map]
+    rw [(view_of_blocks c hu hL (bs.eraseIdx k) t (erase_blocks_length c.L bs hbs k) ht).1]
+    generalize (if i < 0 then i + (bs.length : Int) else i) = j at hkj ⊢
+    have h1 : ¬ (j < 0 ∨ (bs.length : Int) ≤ j) := by omega
+    have h2 : j.toNat = k := by omega
+    simp [h1, h2, Except.map, map_eraseIdx']
 
 theorem delItem_trailing (c : Codec V) (hu : c.mult = 1) (hL : 0 < c.L) (d : Bits) (i : Int) :
     trailing c.w (delItem c d i).data = trailing c.w d := by
-  sorry
+  obtain ⟨bs, t, hbs, ht, rfl, hch, htr, hlen, hit⟩ := blocks_view c hu hL d
+  cases hn : normIndex bs.length i with
+  | error e =>
+    have hs : delItem c (bs.flatten ++ t) i = ⟨bs.flatten ++ t, .error e⟩ := by
+      unfold delItem; rw [hlen, hn]
+    rw [hs]
+  | ok k =>
+    rw [delItem_blocks c hu hL bs t hbs ht i k hn, htr]
+    exact (view_of_blocks c hu hL (bs.eraseIdx k) t (erase_blocks_length c.L bs hbs k) ht).2.1
 
 theorem delItem_error_unchanged (c : Codec V) (d : Bits) (i : Int) (e : Err)
     (h : (delItem c d i).res = .error e) : (delItem c d i).data = d := by
-  sorry
+  revert h
+  unfold delItem
+  split
+  · intro _; rfl
+  · intro h; cases h
 
 /-! ### append, extend -/
 
 theorem append_refines (c : Codec V) (hu : c.mult = 1) (hL : 0 < c.L) (hwf : c.WF) (d : Bits) (v : V)
     (hv : fits c v = true) (ht : trailing c.w d = []) :
     (append c d v).view c = .ok ((), items c d ++ [v]) ∧ trailing c.w (append c d v).data = [] := by
-  sorry
+  obtain ⟨bs, t, hbs, ht', rfl, hch, htr, hlen, hit⟩ := blocks_view c hu hL d
+  rw [htr] at ht
+  subst ht
+  obtain ⟨b, hb⟩ := (fits_iff c v).mp hv
+  obtain ⟨hce, hbl, hdec⟩ := createElement_ok c hu hwf v b hb
+  have hm : (bs.flatten ++ ([] : Bits)).length % c.L = 0 := by
+    rw [List.append_nil, blocks_flatten_length c.L bs hbs]; exact Nat.mul_mod_left _ _
+  have hs : append c (bs.flatten ++ []) v = ⟨(bs ++ [b]).flatten ++ [], .ok ()⟩ := by
+    unfold append
+    rw [if_neg (not_not.mpr hm)]
+    simp only [hce]
+    simp
+  have hbs' := append_blocks_length c.L bs [b] hbs (by simpa using hbl)
+  have hv' := view_of_blocks c hu hL (bs ++ [b]) [] hbs' ht'
+  rw [hs, hit]
+  refine ⟨?_, hv'.2.1⟩
+  unfold Step.view
+  simp only [hv'.1, List.map_append, List.map_cons, List.map_nil, hdec]
 
 /-- With trailing bits, or with a value that does not fit, `append` raises and changes nothing. -/
 theorem append_rejects (c : Codec V) (hu : c.mult = 1) (hL : 0 < c.L) (d : Bits) (v : V)
     (h : trailing c.w d ≠ [] ∨ fits c v = false) :
     (∃ e, (append c d v).res = .error e) ∧ (append c d v).data = d := by
-  sorry
+  have hw := w_eq_L c hu
+  rcases h with h | h
+  · have hm : d.length % c.L ≠ 0 := by
+      rw [hw] at h
+      exact fun h0 => h ((trailing_nil_iff c.L d).mpr h0)
+    unfold append
+    rw [if_pos hm]
+    exact ⟨⟨_, rfl⟩, rfl⟩
+  · obtain ⟨e, he⟩ := (fits_false_iff c v).mp h
+    unfold append
+    split
+    · exact ⟨⟨_, rfl⟩, rfl⟩
+    · rw [createElement_err c v e he]
+      exact ⟨⟨_, rfl⟩, rfl⟩
 
 theorem extendIter_refines (c : Codec V) (hu : c.mult = 1) (hL : 0 < c.L) (hwf : c.WF) (d : Bits) (vals : List V)
     (hv : vals.all (fits c) = true) (ht : trailing c.w d = []) :
     (extendIter c d vals).view c = .ok ((), items c d ++ vals) ∧ trailing c.w (extendIter c d vals).data = [] := by
-  sorry
+  obtain ⟨bs, t, hbs, ht', rfl, hch, htr, hlen, hit⟩ := blocks_view c hu hL d
+  rw [htr] at ht
+  subst ht
+  obtain ⟨bl, hf, hbl, hdec, _, _⟩ := encs_of_fits c hu hwf vals hv
+  have hm : (bs.flatten ++ ([] : Bits)).length % c.L = 0 := by
+    rw [List.append_nil, blocks_flatten_length c.L bs hbs]; exact Nat.mul_mod_left _ _
+  have hs : extendIter c (bs.flatten ++ []) vals = ⟨(bs ++ bl).flatten ++ [], .ok ()⟩ := by
+    unfold extendIter
+    rw [if_neg (not_not.mpr hm), extendLoop_blocks c hu hwf vals bl hf]
+    simp
+  have hbs' := append_blocks_length c.L bs bl hbs hbl
+  have hv' := view_of_blocks c hu hL (bs ++ bl) [] hbs' ht'
+  rw [hs, hit]
+  refine ⟨?_, hv'.2.1⟩
+  unfold Step.view
+  simp only [hv'.1, List.map_append, hdec]
 
 theorem extendIter_trailing_rejects (c : Codec V) (hu : c.mult = 1) (hL : 0 < c.L) (d : Bits) (vals : List V)
     (ht : trailing c.w d ≠ []) :
     (extendIter c d vals).res = .error .value ∧ (extendIter c d vals).data = d := by
-  sorry
+  have hw := w_eq_L c hu
+  have hm : d.length % c.L ≠ 0 := by
+    rw [hw] at ht
+    exact fun h0 => ht ((trailing_nil_iff c.L d).mpr h0)
+  unfold extendIter
+  rw [if_pos hm]
+  exact ⟨rfl, rfl⟩
 
 /-- `extend(other_Array)` of the same dtype: the other's items are appended, and its trailing bits become ours. -/
 theorem extendArr_refines (c c2 : Codec V) (hu : c.mult = 1) (hL : 0 < c.L) (d d2 : Bits)
     (hsame : c.name = c2.name ∧ c.L = c2.L) (ht : trailing c.w d = []) :
     (extendArr c d c2 d2).view c = .ok ((), items c d ++ items c d2) ∧
     trailing c.w (extendArr c d c2 d2).data = trailing c.w d2 := by
-  sorry
+  obtain ⟨bs, t, hbs, ht', rfl, hch, htr, hlen, hit⟩ := blocks_view c hu hL d
+  rw [htr] at ht
+  subst ht
+  obtain ⟨bs2, t2, hbs2, ht2, rfl, hch2, htr2, hlen2, hit2⟩ := blocks_view c hu hL d2
+  have hm : (bs.flatten ++ ([] : Bits)).length % c.L = 0 := by
+    rw [List.append_nil, blocks_flatten_length c.L bs hbs]; exact Nat.mul_mod_left _ _
+  have hs : extendArr c (bs.flatten ++ []) c2 (bs2.flatten ++ t2) = ⟨(bs ++ bs2).flatten ++ t2, .ok ()⟩ := by
+    unfold extendArr
+    rw [if_neg (not_not.mpr hm)]
+    have : ¬ (c.name ≠ c2.name ∨ c.L ≠ c2.L) := by
+      intro h; rcases h with h | h
+      · exact h hsame.1
+      · exact h hsame.2
+    rw [if_neg this]
+    simp
+  have hbs' := append_blocks_length c.L bs bs2 hbs hbs2
+  have hv' := view_of_blocks c hu hL (bs ++ bs2) t2 hbs' ht2
+  rw [hs, hit, hit2, htr2]
+  refine ⟨?_, hv'.2.1⟩
+  unfold Step.view
+  simp only [hv'.1, List.map_append]
 
 theorem extendArr_rejects (c c2 : Codec V) (hu : c.mult = 1) (hL : 0 < c.L) (d d2 : Bits)
     (h : trailing c.w d ≠ [] ∨ c.name ≠ c2.name ∨ c.L ≠ c2.L) :
     (∃ e, (extendArr c d c2 d2).res = .error e) ∧ (extendArr c d c2 d2).data = d := by
-  sorry
+  have hw := w_eq_L c hu
+  unfold extendArr
+  rcases h with h | h
+  · have hm : d.length % c.L ≠ 0 := by
+      rw [hw] at h
+      exact fun h0 => h ((trailing_nil_iff c.L d).mpr h0)
+    rw [if_pos hm]
+    exact ⟨⟨_, rfl⟩, rfl⟩
+  · split
+    · exact ⟨⟨_, rfl⟩, rfl⟩
+    · exact ⟨⟨_, rfl⟩, rfl⟩
 
 /-- `extend(array.array)`: when the dtype of the typecode matches ours and its standard size is the array's native
     item size (outside the region `extend_array_itemsize`), the array's items — `raw` read at our width — are appended. -/
@@ -275,7 +441,33 @@ theorem extendBuf_refines_partial (c : Codec V) (hu : c.mult = 1) (hL : 0 < c.L)
     (hsame : c.name = name2 ∧ c.L = L2) (ht : trailing c.w d = []) :
     native = c.w ∧
     (extendBuf c d (some (name2, L2)) native raw).view c = .ok ((), items c d ++ items c raw) := by
-  sorry
+  have hw := w_eq_L c hu
+  have hnat : native = c.w := by
+    unfold extend_array_itemsize at hreg
+    have : L2 = native := by simpa using hreg
+    rw [hw, hsame.2, this]
+  refine ⟨hnat, ?_⟩
+  obtain ⟨bs, t, hbs, ht', rfl, hch, htr, hlen, hit⟩ := blocks_view c hu hL d
+  rw [htr] at ht
+  subst ht
+  obtain ⟨bs2, t2, hbs2, ht2, rfl, hch2, htr2, hlen2, hit2⟩ := blocks_view c hu hL raw
+  have hm : (bs.flatten ++ ([] : Bits)).length % c.L = 0 := by
+    rw [List.append_nil, blocks_flatten_length c.L bs hbs]; exact Nat.mul_mod_left _ _
+  have hs : extendBuf c (bs.flatten ++ []) (some (name2, L2)) native (bs2.flatten ++ t2) = ⟨(bs ++ bs2).flatten ++ t2, .ok ()⟩ := by
+    unfold extendBuf
+    rw [if_neg (not_not.mpr hm)]
+    have : ¬ (c.name ≠ name2 ∨ c.L ≠ L2) := by
+      intro h; rcases h with h | h
+      · exact h hsame.1
+      · exact h hsame.2
+    simp only
+    rw [if_neg this]
+    simp
+  have hbs' := append_blocks_length c.L bs bs2 hbs hbs2
+  have hv' := view_of_blocks c hu hL (bs ++ bs2) t2 hbs' ht2
+  rw [hs, hit, hit2]
+  unfold Step.view
+  simp only [hv'.1, List.map_append]
 
 /-- Known finding `extend-array-itemsize`: `array.array('l', [1])` holds one 16-bit item on a platform where the standard
     size of `'l'` is 8 bits (scaled down from 64 / 32): an `intle8` Array accepts it and reads two items `[1, 0]`. -/
@@ -296,11 +488,70 @@ theorem insert_refines_partial (c : Codec V) (hu : c.mult = 1) (hL : 0 < c.L) (h
     (hv : fits c v = true) (hreg : insert_negative c d i = false) :
     (insert c d i v).view c = .ok ((), PyL.insert (items c d) i v) ∧
     trailing c.w (insert c d i v).data = trailing c.w d := by
-  sorry
+  obtain ⟨bs, t, hbs, ht, rfl, hch, htr, hlen, hit⟩ := blocks_view c hu hL d
+  obtain ⟨b, hb⟩ := (fits_iff c v).mp hv
+  obtain ⟨hce, hbl, hdec⟩ := createElement_ok c hu hwf v b hb
+  have hdl : (bs.flatten ++ t).length = bs.length * c.L + t.length := by
+    rw [List.length_append, blocks_flatten_length c.L bs hbs]
+  -- the item position the code computes
+  have key : ∃ k : Nat, k ≤ bs.length ∧
+      (k : Int) = (if i < 0 then max (i + (bs.length : Int)) 0 else min i (bs.length : Int)) ∧
+      (if min i ((len c (bs.flatten ++ t) : Nat) : Int) * (c.L : Int) < 0
+        then min i ((len c (bs.flatten ++ t) : Nat) : Int) * (c.L : Int) + ((bs.flatten ++ t).length : Int)
+        else min i ((len c (bs.flatten ++ t) : Nat) : Int) * (c.L : Int)) = ((k * c.L : Nat) : Int) := by
+    rw [hlen]
+    unfold insert_negative at hreg
+    rw [hlen] at hreg
+    by_cases hi : i < 0
+    · have h1 : (bs.flatten ++ t).length % c.L = 0 ∧ -(bs.length : Int) ≤ i := by
+        simp only [hi, decide_true, Bool.true_and, Bool.or_eq_false_iff, bne_eq_false_iff_eq,
+          decide_eq_false_iff_not, not_lt] at hreg
+        exact hreg
+      have ht0 : t.length = 0 := by
+        have := h1.1
+        rw [hdl, Nat.mul_comm, Nat.mul_add_mod, Nat.mod_eq_of_lt ht] at this
+        exact this
+      refine ⟨(i + (bs.length : Int)).toNat, by omega, ?_, ?_⟩
+      · simp only [hi, if_true]; omega
+      · have hm : min i (bs.length : Int) = i := by omega
+        rw [hm]
+        have hneg : i * (c.L : Int) < 0 := Int.mul_neg_of_neg_of_pos hi (by omega)
+        rw [if_pos hneg, hdl, ht0]
+        have : ((i + (bs.length : Int)).toNat : Int) = i + bs.length := by omega
+        push_cast
+        rw [this]
+        ring
+    · refine ⟨(min i (bs.length : Int)).toNat, by omega, ?_, ?_⟩
+      · simp only [hi, if_false]; omega
+      · have hnn : ¬ (min i (bs.length : Int) * (c.L : Int) < 0) := by
+          have : 0 ≤ min i (bs.length : Int) * (c.L : Int) := Int.mul_nonneg (by omega) (by omega)
+          omega
+        rw [if_neg hnn]
+        have : ((min i (bs.length : Int)).toNat : Int) = min i (bs.length : Int) := by omega
+        push_cast
+        rw [this]
+  obtain ⟨k, hk, hkj, hpos⟩ := key
+  have hkl : k * c.L ≤ (bs.flatten ++ t).length := by
+    rw [hdl]
+    have := Nat.mul_le_mul_right c.L hk
+    omega
+  have hs : insert c (bs.flatten ++ t) i v = ⟨(bs.take k ++ b :: bs.drop k).flatten ++ t, .ok ()⟩ := by
+    unfold insert
+    simp only [hce]
+    rw [bInsert_of _ b _ (k * c.L) (by omega) hkl hpos, insert_block c.L bs t b hbs k hk]
+  have hbs' := insert_blocks_length c.L bs b hbs hbl k
+  have hv' := view_of_blocks c hu hL _ t hbs' ht
+  rw [hs, hit, htr]
+  refine ⟨?_, hv'.2.1⟩
+  unfold Step.view PyL.insert
+  simp only [hv'.1, List.length_map, ← hkj, Int.toNat_natCast]
+  simp [List.map_take, List.map_drop, hdec]
 
 theorem insert_rejects (c : Codec V) (d : Bits) (i : Int) (v : V) (hv : fits c v = false) :
     (∃ e, (insert c d i v).res = .error e) ∧ (insert c d i v).data = d := by
-  sorry
+  obtain ⟨e, he⟩ := (fits_false_iff c v).mp hv
+  unfold insert
+  simp [createElement_err c v e he]
 
 /-- Known finding `insert-negative`: on `Array('uint2', [1, 0], trailing_bits='0b1')`, `insert(-1, 3)` lands inside
     item 1 (list model: `[1, 3, 0]`; code: `[1, 1, 2]`), and `Array('uint2', [1]).insert(-2, 3)` raises where the list
@@ -317,15 +568,69 @@ theorem insert_negative_witness :
 
 theorem pop_refines (c : Codec V) (hu : c.mult = 1) (hL : 0 < c.L) (d : Bits) (i : Int) :
     (pop c d i).view c = PyL.pop (items c d) i := by
-  sorry
+  have hg := getItem_refines c hu hL d i
+  have hd := delItem_refines c hu hL d i
+  unfold pop PyL.pop
+  by_cases h0 : len c d = 0
+  · rw [if_pos h0]
+    have : items c d = [] := by
+      apply List.eq_nil_of_length_eq_zero
+      rw [← len_eq c hu d]; exact h0
+    rw [this]
+    have : Py.getIndex ([] : List V) i = .error .index := by
+      unfold Py.getIndex
+      simp only [List.length_nil]
+      split <;> simp
+    simp [Step.view, this]
+  · rw [if_neg h0, hg]
+    cases hx : Py.getIndex (items c d) i with
+    | error e => simp [Step.view]
+    | ok x =>
+      simp only
+      unfold Step.view at hd ⊢
+      cases hr : (delItem c d i).res with
+      | error e =>
+        rw [hr] at hd
+        cases hdl : PyL.delIndex (items c d) i with
+        | error e' =>
+          rw [hdl] at hd
+          simp only [Except.map] at hd
+          injection hd with hd
+          simp [hd]
+        | ok l' => rw [hdl] at hd; simp [Except.map] at hd
+      | ok u =>
+        rw [hr] at hd
+        cases hdl : PyL.delIndex (items c d) i with
+        | error e' => rw [hdl] at hd; simp [Except.map] at hd
+        | ok l' =>
+          rw [hdl] at hd
+          simp only [Except.map] at hd
+          injection hd with hd
+          injection hd with _ hd
+          simp [hd]
 
 theorem pop_trailing (c : Codec V) (hu : c.mult = 1) (hL : 0 < c.L) (d : Bits) (i : Int) :
     trailing c.w (pop c d i).data = trailing c.w d := by
-  sorry
+  unfold pop
+  split
+  · rfl
+  · split
+    · rfl
+    · exact delItem_trailing c hu hL d i
 
 theorem pop_error_unchanged (c : Codec V) (d : Bits) (i : Int) (e : Err)
     (h : (pop c d i).res = .error e) : (pop c d i).data = d := by
-  sorry
+  revert h
+  unfold pop
+  split
+  · intro _; rfl
+  · split
+    · intro _; rfl
+    · intro h
+      simp only at h ⊢
+      cases hr : (delItem c d i).res with
+      | ok u => rw [hr] at h; simp at h
+      | error e' => exact delItem_error_unchanged c d i e' hr
 
 /-! ### count, equals, copy, dtype change -/
 
@@ -334,13 +639,16 @@ theorem pop_error_unchanged (c : Codec V) (d : Bits) (i : Int) (e : Err)
 theorem count_refines_partial (c : Codec V) (vo : ValOps V) (hu : c.mult = 1) (hL : 0 < c.L) (d : Bits) (value : V)
     (hnan : vo.isnan value = .ok false) :
     count c vo d value = .ok ((items c d).countP fun i => vo.eq i value) := by
-  sorry
+  unfold count
+  simp only [hnan, iter_eq_items c hu hL d]
 
 /-- `count(nan)` counts the NaN items (documented). -/
 theorem count_nan (c : Codec V) (vo : ValOps V) (hu : c.mult = 1) (hL : 0 < c.L) (d : Bits) (value : V)
     (hnan : vo.isnan value = .ok true) :
     count c vo d value = .ok ((items c d).countP fun i => match vo.isnan i with | .ok b => b | .error _ => false) := by
-  sorry
+  unfold count
+  simp only [hnan, iter_eq_items c hu hL d]
+  rfl
 
 /-- Known finding `count-nonnumeric`: `Array('hex4', ['e']).count('e')` raises TypeError, `['e'].count('e')` is 1. -/
 theorem count_nonnumeric_witness :
@@ -354,11 +662,33 @@ theorem count_nonnumeric_witness :
 /-- `equals`: same dtype and same data; for a canonical codec that is "same items and same trailing bits". -/
 theorem equals_iff (c c2 : Codec V) (d d2 : Bits) :
     equals c d c2 d2 = true ↔ (c.L = c2.L ∧ c.name = c2.name ∧ d = d2) := by
-  sorry
+  unfold equals
+  constructor
+  · intro h
+    split at h
+    · cases h
+    · split at h
+      · cases h
+      · split at h
+        · cases h
+        · rename_i h1 h2 h3
+          exact ⟨not_not.mp h1, not_not.mp h2, not_not.mp h3⟩
+  · rintro ⟨h1, h2, h3⟩
+    simp [h1, h2, h3]
 
 theorem equals_iff_items (c : Codec V) (hw : 0 < c.w) (hcanon : c.Canonical) (d d2 : Bits) :
     equals c d c d2 = true ↔ (items c d = items c d2 ∧ trailing c.w d = trailing c.w d2) := by
-  sorry
+  rw [equals_iff]
+  constructor
+  · rintro ⟨_, _, rfl⟩
+    exact ⟨rfl, rfl⟩
+  · rintro ⟨h1, h2⟩
+    refine ⟨rfl, rfl, ?_⟩
+    have e1 := layout c.w d
+    have e2 := layout c.w d2
+    have hc : chunks c.w d = chunks c.w d2 :=
+      map_dec_inj c hcanon _ _ (chunks_mem_length c.w hw d) (chunks_mem_length c.w hw d2) h1
+    rw [e1, e2, hc, h2]
 
 /-- "changing dtype re-reads the same data without altering it": the data is the same object content, the new
     item view is the chunking of that same data at the new width, and changing back restores the Array. -/
@@ -367,7 +697,8 @@ theorem dtype_change_keeps_data (a : Arr V) (c2 : Codec V) (hw : 0 < c2.w) :
     a.d = (chunks c2.w a.d).flatten ++ trailing c2.w a.d ∧
     items c2 (a.setDtype c2).d = (chunks c2.w a.d).map c2.dec ∧
     (a.setDtype c2).setDtype a.c = a := by
-  sorry
+  refine ⟨rfl, layout c2.w a.d, rfl, ?_⟩
+  cases a; rfl
 
 /-! ### the `bytes` dtypes: `dtype.length` counts bytes, the code uses it as a bit count -/
 
@@ -386,13 +717,21 @@ theorem bytes_dtype_witness :
     when `L < L * mult`). -/
 theorem bytes_dtype_rejects_all (c : Codec V) (hwf : c.WF) (hL : 0 < c.L) (hm : 1 < c.mult) (v : V) :
     ∃ e, createElement c v = .error e := by
-  sorry
+  unfold createElement
+  cases h : c.enc v with
+  | error e => exact ⟨e, rfl⟩
+  | ok b =>
+    have hl := hwf.len_enc v b h
+    have : b.length ≠ c.L := by
+      rw [hl, Codec.w]
+      have : c.L * 1 < c.L * c.mult := Nat.mul_lt_mul_of_pos_left hm hL
+      omega
+    simp only [this, ne_eq, not_false_eq_true, if_true]
+    exact ⟨_, rfl⟩
 
 /-! ### non-vacuity -/
-example : (mkCodec .u "uint" 3 1 .int false).WF := by
-  constructor <;> sorry
-example : (mkCodec .i "int" 4 1 .int true).WF := by
-  constructor <;> sorry
+example : (mkCodec .u "uint" 3 1 .int false).WF := mkCodec_u_WF "uint" 3 .int false
+example : (mkCodec .i "int" 4 1 .int true).WF := mkCodec_i4_WF
 example : items (mkCodec .u "uint" 3 1 .int false) [true, false, true, false, true, true, true] = [.int 5, .int 3] := by decide
 example : trailing 3 [true, false, true, false, true, true, true] = [true] := by decide
 example : (setItem (mkCodec .i "int" 4 1 .int true) [true, false, true, false, true, true, true, true, false] (-1) (.int (-8))).data
